@@ -52,7 +52,7 @@ inductive Val
 abbrev Vals := List (String × Val)
 abbrev JidNorm := String → Option String
 
-def isMulti (t : String) : Bool := t = "list-multi" || t = "jid-multi" || t = "text-multi"
+def isMulti (t : String) : Bool := t = "list-multi" || t = "jid-multi" || t = "text-multi" || t = "hidden"
 def isList (t : String) : Bool := t = "list-single" || t = "list-multi"
 def isJid (t : String) : Bool := t = "jid-single" || t = "jid-multi"
 def boolLex (v : String) : Bool := v = "true" || v = "false" || v = "0" || v = "1"
